@@ -447,7 +447,310 @@ def build_parse_output_value(world, params):
     return pf.parse_output_value, dict(value=value, context=ctx), dict(self=pf)
 
 
-BUILDERS = {"seq_args": build_seq_args, "tuple_args": build_tuple_args, "map_args": build_map_args, "contains": build_contains,
+def _transformer(world, d):
+    f = d.get("fields", {})
+    kw = {}
+    for k in ("no_explicit_cast", "no_data_loss"):
+        if "lit" in f.get(k, {}):
+            kw[k] = f[k]["lit"]
+    from utype.parser.options import Options
+    return Options(**kw).make_context().transformer
+
+
+def build_apply(world, params):
+    tr = _transformer(world, params["self"])
+    data = world.build(params["data"])
+    t = world.build(params["t"])
+    from utype.utils.transform import TypeTransformer
+    func = None
+    if "none" not in params.get("func", {"none": True}):
+        func = TypeTransformer.resolver_transformer(t)
+        if func is None:
+            raise Unbuildable("no converter registered for the stub type")
+    return tr.apply, dict(data=data, t=t, func=func), dict(self=tr)
+
+
+def build_call(world, params):
+    tr = _transformer(world, params["self"])
+    data = world.build(params["data"])
+    t = world.build(params["t"])
+    return tr.__call__, dict(data=data, t=t), dict(self=tr)
+
+
+def build_parse_pos_type(world, params):
+    import utype
+    from utype.parser.func import FunctionParser
+    f = params["self"].get("fields", {})
+    pt = f.get("position_type", {"none": True})
+    if "t" in pt:
+        T = world.build(pt)
+
+        def fn(*args: T):
+            return args
+    else:
+        def fn(*args):
+            return args
+    parser = FunctionParser.apply_for(fn)
+    if ("t" in pt) != bool(parser.position_type):
+        raise Unbuildable("the parser did not pick up the *args annotation")
+    ctx = world.build_context(params["context"])
+    return parser.parse_pos_type, dict(index=world.build(params["index"]), value=world.build(params["value"]), context=ctx), dict(self=parser)
+
+
+def build_parse_addition(world, params):
+    from utype import Schema
+    from utype.parser.options import Options
+    f = params["self"].get("fields", {})
+    at = f.get("addition_type", {"none": True})
+    ctx = world.build_context(params["context"])
+    opts = {}
+    if "t" in at:
+        opts["addition"] = world.build(at)
+    S = type("ReplaySchema", (Schema,), {"__options__": Options(**opts), "__annotations__": {}})
+    parser = S.__parser__
+    if ("t" in at) != bool(parser.addition_type):
+        raise Unbuildable("the parser did not pick up the addition type")
+    ev = f.get("exclude_vars")
+    if ev and "items" in ev:
+        parser.exclude_vars = set(world.build(i) for i in ev["items"])
+    return parser.parse_addition, dict(key=world.build(params["key"]), value=world.build(params["value"]), context=ctx), dict(self=parser)
+
+
+class _SelfView:
+    """the names a Schema contract uses for the instance: __data__ (the mapping view), __dict__ (the attribute view),
+    __options__, __parser__ -- read from the REAL instance at the time the clause is evaluated"""
+
+    def __init__(self, inst):
+        object.__setattr__(self, "_inst", inst)
+
+    @property
+    def __data__(self):
+        return dict.copy(self._inst) if True else None
+
+    def __getattr__(self, name):
+        if name == "__dict__":
+            return dict(self._inst.__dict__)
+        return getattr(self._inst, name)
+
+
+def _schema_helpers():
+    from utype.utils.datastructures import unprovided
+
+    def key_same(a, b):
+        return a is b or a == b
+
+    def has_key(m, k):
+        return any(key_same(x, k) for x in m)
+
+    def value_at(m, k, v):
+        return any(key_same(x, k) and y is v for x, y in m.items())
+
+    def no_unprovided(m):
+        return all(y is not unprovided for y in m.values())
+
+    def others_untouched(m, old_m, k):
+        kept = all(any(x is x2 or x == x2 and True for x2 in m) and m.get(x, _NOVALUE) is y for x, y in old_m.items() if not key_same(x, k))
+        nonew = all((x in old_m and old_m[x] is y) for x, y in m.items() if not key_same(x, k))
+        return kept and nonew
+
+    def snap(m):
+        return dict(m)
+
+    def same_map(m, old_m):
+        return list(m.items()) == list(old_m.items()) and all(a is b for a, b in zip(m.values(), old_m.values()))
+
+    def entry_kept(m, old_m, k):
+        return k in m and k in old_m and m[k] is old_m[k]
+    return dict(has_key=has_key, value_at=value_at, no_unprovided=no_unprovided, others_untouched=others_untouched, snap=snap,
+                same_map=same_map, entry_kept=entry_kept)
+
+
+def _real_schema(world, sd, fd):
+    """a real Schema class with ONE declared field mirroring the field record `fd`, and an instance in the state `sd`"""
+    from utype import Schema, Field
+    from utype.parser.options import Options
+    from utype.utils.datastructures import unprovided
+    ff = fd.get("fields", {})
+
+    def lit(k, default=None):
+        v = ff.get(k, {})
+        return v["lit"] if "lit" in v else default
+    name, attname = lit("name"), lit("attname")
+    if not isinstance(name, str) or not isinstance(attname, str) or not attname.isidentifier() or attname.startswith("_"):
+        raise Unbuildable("field names %r / %r are not declarable" % (name, attname))
+    T = world.build(ff["type"]) if "t" in ff.get("type", {}) else None
+    fld = Field(alias=name if name != attname else None)
+    ns = {"__annotations__": {attname: T if T is not None else object}, attname: fld}
+    try:
+        S = type("ReplaySchema", (Schema,), ns)
+    except Exception as e:   # noqa
+        raise Unbuildable("declaration rejected: %s" % e)
+    pf = S.__parser__.fields.get(name)
+    if pf is None:
+        raise Unbuildable("the parser did not register the field under %r" % name)
+    for k, v in ff.items():
+        if k in ("name", "attname", "type", "field", "property", "dependants", "dependencies"):
+            continue
+        if "lit" in v:
+            setattr(pf, k, v["lit"])
+        elif "none" in v:
+            setattr(pf, k, {} if k == "discriminator_map" else None)
+        elif "v" in v:
+            setattr(pf, k, world.obj(v["v"]))
+        elif v.get("opaque") == "unprovided":
+            setattr(pf, k, unprovided)
+    fi = ff.get("field", {}).get("fields", {})
+    if "lit" in fi.get("immutable", {}):
+        pf.field.immutable = fi["immutable"]["lit"]
+    sf = sd.get("fields", {})
+    popts = sf.get("__parser__", {}).get("fields", {}).get("options")
+    if popts:
+        S.__parser__.options = world.build_options(popts)
+    inst = S.__new__(S)
+    def keyname(k):
+        # keys of an instance's two views are names: an abstract key of the model becomes a fresh name of its own
+        return k["lit"] if isinstance(k.get("lit"), str) else "key_%s" % (k.get("v", k.get("t", "x")),)
+    for k, v in (sf.get("__data__", {}).get("map") or []):
+        dict.__setitem__(inst, keyname(k), world.build(v))
+    for k, v in (sf.get("__dict__", {}).get("map") or []):
+        inst.__dict__[keyname(k)] = world.build(v)
+    inst.__options__ = world.build_options(sf.get("__options__", {"fields": {}}))
+    return S, inst, pf
+
+
+def build_schema_setter(world, params):
+    S, inst, pf = _real_schema(world, params["self"], params["field"])
+    value = world.build(params["value"])
+    return inst.__field_setter__, dict(value=value, field=pf), dict(self=_SelfView(inst), **_schema_helpers())
+
+
+def build_schema_deleter(world, params):
+    S, inst, pf = _real_schema(world, params["self"], params["field"])
+    return inst.__field_deleter__, dict(field=pf), dict(self=_SelfView(inst), **_schema_helpers())
+
+
+def build_rule_parse(world, params):
+    """a real Rule class whose origin is a stub type and whose validators are table-driven stubs"""
+    from utype.parser.rule import Rule
+    f = params["cls"].get("fields", {})
+    if "none" not in f.get("__args_parser__", {"none": True}):
+        raise Unbuildable("a Rule with an args parser: the interface contract gives no concrete result to replay")
+    if "t" in f.get("contains", {}):
+        raise Unbuildable("a Rule with `contains`")
+    origin = world.build(f["__origin__"]) if "t" in f.get("__origin__", {}) else None
+    R = Rule.annotate(origin) if origin is not None else type("R", (Rule,), {})
+    if origin is not None and R.__origin__ is not origin:
+        raise Unbuildable("Rule.annotate changed the origin")
+    vtab = {(j, x): (a, r) for j, x, a, r in world.lw.get("validators", [])}
+    entries = []
+    for it in f.get("__validators__", {}).get("items", []):
+        j = it["validator"]
+
+        def stub(value, constraint, _j=j):
+            x = world.obj_index.get(id(value))
+            world.calls.append(("validator", _j, x))
+            a, r = vtab.get((_j, x), (False, -1))
+            if not a:
+                raise world.reject_with("stub validator #%d rejects v%s" % (_j, x))
+            return world.obj(r)
+        entries.append((it["key"], world.build(it["constraint"]), stub))
+    R.__validators__ = entries
+    for k in ("__applied__",):
+        if "lit" in f.get(k, {}):
+            setattr(R, k, f[k]["lit"])
+    value = world.build(params["value"])
+    ctxd = params.get("context", {"none": True})
+    ctx = world.build_context(ctxd) if "rec" in ctxd else None
+    world.rule_entries = entries
+
+    def vfold(cls, v0, k):
+        v = v0
+        for j in range(k):
+            x = world.obj_index.get(id(v))
+            a, r = vtab.get((f["__validators__"]["items"][j]["validator"], x), (False, -1))
+            v = world.obj(r) if r >= 0 else _NOVALUE
+        return v
+
+    def vacc_at(cls, v0, i):
+        v = vfold(cls, v0, i)
+        x = world.obj_index.get(id(v))
+        return vtab.get((f["__validators__"]["items"][i]["validator"], x), (False, -1))[0]
+    return R.parse, dict(value=value, context=ctx), dict(cls=R, vfold=vfold, vacc_at=vacc_at)
+
+
+class _ParserView:
+    def __init__(self, fields):
+        self.fields = fields
+
+
+def _build_field_loop(fname):
+    def build(world, params):
+        from utype import Schema, Field
+        from utype.parser.options import Options
+        from utype.utils.datastructures import unprovided
+        sd = params["self"].get("fields", {})
+        fmap = {k["lit"]: v for k, v in sd.get("fields", {}).get("map", [])}
+        ci = [i["lit"] for i in sd.get("case_insensitive_names", {}).get("items", []) if "lit" in i]
+        ns, ann, recs = {}, {}, {}
+        for fkey, frec in fmap.items():
+            ff = frec.get("fields", {})
+            name, attname = ff["name"]["lit"], ff["attname"]["lit"]
+            aliases = [i["lit"] for i in ff.get("all_aliases", {}).get("items", []) if "lit" in i]
+            deps = [i["lit"] for i in ff.get("dependencies", {}).get("items", []) if "lit" in i] if "items" in ff.get("dependencies", {}) else None
+            kw = dict(alias=name if name != attname else None, alias_from=[a for a in aliases if a != name] or None)
+            if name in ci:
+                kw["case_insensitive"] = True
+            if deps:
+                kw["dependencies"] = deps
+            ns[attname] = Field(**kw)
+            ann[attname] = world.build(ff["type"]) if "t" in ff.get("type", {}) else object
+            recs[fkey] = (name, ff)
+        ns["__annotations__"] = ann
+        try:
+            S = type("ReplaySchema", (Schema,), ns)
+        except Exception as e:   # noqa
+            raise Unbuildable("declaration rejected: %s" % e)
+        parser = S.__parser__
+        pfs = {}
+        for fkey, (name, ff) in recs.items():
+            pf = parser.fields.get(name)
+            if pf is None:
+                raise Unbuildable("field %r not registered" % name)
+            for k in ("required", "no_input", "final", "mode", "default_factory", "defer_default", "on_error"):
+                v = ff.get(k, {})
+                if "lit" in v:
+                    setattr(pf, k, v["lit"])
+                elif "none" in v:
+                    setattr(pf, k, None)
+            d = ff.get("default", {})
+            if "v" in d:
+                pf.default = world.obj(d["v"])
+            elif d.get("opaque") == "unprovided":
+                pf.default = unprovided
+            pfs[fkey] = pf
+        data = {k["lit"]: world.build(v) for k, v in params["data"].get("map", [])}
+        ctx = world.build_context(params["context"])
+        args = dict(data=data, context=ctx)
+        if "lit" in params.get("as_attname", {}):
+            args["as_attname"] = params["as_attname"]["lit"]
+
+        def rd_has(r, k):
+            return k in r
+
+        def rd_is(r, k, v):
+            return k in r and r[k] is v
+
+        def rd_copied(r, k, d):
+            return k in r and (r[k] is d or (type(r[k]) is type(d) and r[k] == d))
+
+        def rd_only(r, *keys):
+            return all(k in keys for k in r)
+        return getattr(parser, fname), args, dict(self=_ParserView(pfs), rd_has=rd_has, rd_is=rd_is, rd_copied=rd_copied, rd_only=rd_only)
+    return build
+
+
+BUILDERS = {"field_first_parse": _build_field_loop("field_first_parse"), "data_first_parse": _build_field_loop("data_first_parse"),
+            "rule_parse": build_rule_parse, "schema_setter": build_schema_setter, "schema_deleter": build_schema_deleter, "parse_pos_type": build_parse_pos_type, "parse_addition": build_parse_addition, "apply": build_apply, "call": build_call, "seq_args": build_seq_args, "tuple_args": build_tuple_args, "map_args": build_map_args, "contains": build_contains,
             "logical_parse": build_logical_parse, "parse_value": build_parse_value, "parse_output_value": build_parse_output_value}
 
 
@@ -472,8 +775,8 @@ def replay_once(rp, exc_class, reject_with):
     import pyvc_concrete as conc   # loaded by replay_run
     env.update(conc.HELPERS)
     env.update(helpers(world, args))
-    env.update(extra)
     env.update(args)
+    env.update(extra)        # builder-provided names (the receiver, views of it, extra helpers) win
     con = rp["contract"]
     clauses = {}
     olds = set()
@@ -493,17 +796,22 @@ def replay_once(rp, exc_class, reject_with):
     env["__old__"] = old_vals
     frame_names = [n for n in (con.get("frame") or []) if n in args]
     snaps = {n: snapshot(args[n]) for n in frame_names}
-    out = {"args": {k: repr(v)[:300] for k, v in args.items()}, "function": getattr(fn, "__qualname__", str(fn))}
+    def _r(v):
+        try:
+            return repr(v)[:300]
+        except Exception as e:   # noqa
+            return "<%s: repr failed: %s>" % (type(v).__name__, e)
+    out = {"args": {k: _r(v) for k, v in args.items()}, "function": getattr(fn, "__qualname__", str(fn))}
     result = exc = None
     try:
         result = fn(**args)
         out["outcome"] = "return"
-        out["result"] = repr(result)[:300]
+        out["result"] = _r(result)
     except BaseException as e:   # noqa
         exc = e
         out["outcome"] = "raise"
         out["exception"] = "%s: %s" % (type(e).__name__, str(e)[:200])
-    out["leaf_calls"] = ["T%d(v%s) nec=%s ndl=%s" % c for c in world.calls][:40]
+    out["leaf_calls"] = [("T%d(v%s) nec=%s ndl=%s" % c) if len(c) == 4 else ("%s #%s (v%s)" % c) for c in world.calls][:40]
     violated, errors = [], []
 
     def ev(label):
